@@ -40,7 +40,7 @@ CLAIMS = {
  'C07': ('other', "Deductive (save side): Model._to_dict yields metadata, one entry per asset keyed by its id (name, type; asset_to_dict), one list element per association in order "
          "(association_to_dict: class name -> {left field: ids, right field: ids} in field order, extras copied) and one entry per attacker keyed by its id (attacker_to_dict: name, "
          "entry_points {asset id: {'attack_steps': the step list}}) - under the precondition that attacker ids are pairwise different (the known finding is a model violating it); "
-         "get_asset_by_id (used by _from_dict to resolve ids). The defense values (get_asset_defenses: python_jsonschema_objects internals) are assumed. "
+         "get_asset_by_id (used by _from_dict to resolve ids); the file layer's dispatch: save_dict_to_file / Model.save_to_file write the document under the name in the format of the extension (.yml/.yaml -> YAML, .json -> JSON, else ValueError and nothing written), Model.load_from_file reads with the loader of the extension and returns what _from_dict makes of the written document (lemma FILE-RT: same name => same format) - over a ghost file system, with ASSUMED contracts for the four json / yaml wrappers and an abstract one for _from_dict. The defense values (get_asset_defenses: python_jsonschema_objects internals) are assumed. "
          "Bounded (load side and files): _from_dict, API-built and hand-written models x {json, yml, yaml}, save/load/modify/save/load sequences; json / yaml are external.", '4 C07'),
  'C08': ('proof', "Every function of the apriori analysis (evaluate_*, propagate_* incl. the recursive contract with a well-founded measure, calculate_viability_and_necessity) is verified against "
          "sidecar contracts whose top-level post is the property: no equation violated, base nodes carry their status, every solution lies below the computed labelling (greatest fixed point), "
@@ -48,7 +48,7 @@ CLAIMS = {
  'C09': ('other', "Deductive: add_node, remove_node, add_attacker, remove_attacker, compromise/undo (+ lemma COMP-WF), prune, the lookups preserve wf_graph (W0..W5) and have exact effects; "
          "raising calls leave the observable state unchanged. Bounded: regenerate_graph, attach_attackers, deepcopy, save/load inside histories (all histories <=3 operations on graphs <=3 nodes).", '4 C09, A.5'),
  'C10': ('other', "Deductive: AttackGraphNode.to_dict, Attacker.to_dict and AttackGraph._to_dict are verified against the dict encoding (typed fields, tags as a fresh list of str, id -> full-name maps, "
-         "one collision-free entry per node / attacker). Bounded: _from_dict and the file layer (json / yaml are external) by the floor: graphs <=4 nodes x {json, yml, dict} x {model, no model}.", '4 C10'),
+         "one collision-free entry per node / attacker). AttackGraph.save_to_file / load_from_file dispatch on the extension like the model's (ghost file system, assumed json / yaml wrappers, abstract _from_dict; lemma FILE-RT). Bounded: _from_dict and the real files by the floor: graphs <=4 nodes x {json, yml, dict} x {model, no model}.", '4 C10'),
  'C11': ('other', "Deductive: Attacker.compromise / undo_compromise and the node-side delegates (exact delta, idempotence), lemma COMP-WF, remove_attacker (no node stays compromised), add_attacker. "
          "Bounded: attach_attackers (contract in progress) by the floor: 2 attackers x 3 nodes, sequences <=5, 6342 attach scenarios.", '4 C11'),
  'C12': ('proof', "query.py and the node predicates it uses are verified function by function (loop invariants over the done-bag, frame = only fresh / caller-supplied lists change); "
